@@ -65,7 +65,8 @@ def table_check(ctx):
     return ref
 
 
-MSGS = [b"", b"#", b"#HY000oops", b"\x00", b"\xff\xfe", b"a" * 300, "日本語".encode(), b"it's \"quoted\"\n", bytes(range(256))]
+MSGS = [b"", b"#", b"#HY000oops", b"\x00", b"\xff\xfe", b"a" * 300, "日本語".encode(), b"it's \"quoted\"\n", bytes(range(256)),
+        b"m" * 511, b"n" * 512, b"o" * 513, b"p" * 5000, b"q" * 70000]
 
 
 def run(ctx):
